@@ -407,11 +407,11 @@ func ruleRefusals(c *Ctx) []Ob {
 		for _, b := range fn.Blocks {
 			for _, ins := range b.Instrs {
 				call, ok := ins.(*ssa.Call)
-				if !ok || call.Call.StaticCallee() == nil || call.Call.StaticCallee().Name() != "createStructDesc" {
+				if !ok || call.Call.StaticCallee() == nil || !reachesNamed(call.Call.StaticCallee(), "createStructDesc") {
 					continue
 				}
 				for _, r := range referrers(call) {
-					if ex, ok := r.(*ssa.Extract); ok && ex.Index == 1 {
+					if ex, ok := r.(*ssa.Extract); ok && isErrorType(ex.Type()) {
 						for _, rr := range referrers(ex) {
 							if bo, ok := rr.(*ssa.BinOp); ok && bo.Op == token.NEQ {
 								for _, r3 := range referrers(bo) {
@@ -1098,4 +1098,14 @@ func (c *Ctx) keywordFn(pkg string, words []string) (*ssa.Function, []wordCmp) {
 		}
 	}
 	return nil, nil
+}
+
+// reachesNamed: f is, or statically calls (transitively, inside the module), the function with the given name.
+func reachesNamed(f *ssa.Function, name string) bool {
+	for g := range staticReach(f) {
+		if g.Name() == name {
+			return true
+		}
+	}
+	return false
 }
